@@ -83,9 +83,45 @@ type tracker struct {
 	events  atomic.Int64
 	subs    []*subscription
 	crossed int
+	// seen: values of the top-level string fields of handed-out messages, by field name (ids, versions, names...),
+	// so that later requests can name things that exist
+	seen map[string][]string
 }
 
-func newTracker() *tracker { return &tracker{byPtr: map[any]*handle{}} }
+func newTracker() *tracker { return &tracker{byPtr: map[any]*handle{}, seen: map[string][]string{}} }
+
+// harvest remembers the string fields of a handed-out message (called with the lock held).
+func (t *tracker) harvest(m proto.Message) {
+	hx.Catch(func() {
+		m.ProtoReflect().Range(func(fd protoreflect.FieldDescriptor, v protoreflect.Value) bool {
+			if fd.Kind() == protoreflect.StringKind && !fd.IsList() && !fd.IsMap() && v.String() != "" {
+				name := string(fd.Name())
+				l := t.seen[name]
+				for _, x := range l {
+					if x == v.String() {
+						return true
+					}
+				}
+				if len(l) >= 8 {
+					l = l[1:]
+				}
+				t.seen[name] = append(l, v.String())
+			}
+			return true
+		})
+	})
+}
+
+// known returns a value seen earlier in a field of that name.
+func (t *tracker) known(name string, r *rand.Rand) (string, bool) {
+	t.mu.Lock()
+	defer t.mu.Unlock()
+	l := t.seen[name]
+	if len(l) == 0 {
+		return "", false
+	}
+	return l[r.Intn(len(l))], true
+}
 
 func validMsg(m proto.Message) bool {
 	if m == nil {
@@ -123,6 +159,7 @@ func (t *tracker) out(role string, m proto.Message) {
 	if _, ok := t.byPtr[m]; ok {
 		return
 	}
+	t.harvest(m)
 	var frozen proto.Message
 	if p := hx.Catch(func() { frozen = proto.Clone(m) }); p != "" {
 		return
